@@ -1,12 +1,12 @@
 """C09 — type-checked installation refuses every structurally different signature."""
 import core
 
-RULE = ("family of 24 function-pointer types around `fn(i32, &u8) -> i64`, each differing from it in exactly one respect (one parameter "
+RULE = ("family of 30 function-pointer types around `fn(i32, &u8) -> i64`, each differing from it in exactly one respect (one parameter "
         "fewer/more, one parameter type x4, return type x4, & -> &mut, & -> *const, *const -> *mut, parameter order, nested fn types in a "
-        "parameter and in the return, unit return, unsafe, extern \"C\", unsafe extern \"C\", unsafe extern \"system\") plus two lifetime "
+        "parameter and in the return, unit return, unsafe, extern \"C\", unsafe extern \"C\", unsafe extern \"system\", and three pairs of types whose names differ only in the module path: ma::Rs / mb::Rs as return, &ma::Cfg / &mb::Cfg as parameter, std::fmt::Result / std::io::Result<()>) plus two lifetime "
         "re-spellings; EVERY ordered pair (target type i, replacement type j) through every macro form carrying a type (func! long form, "
         "func!(fn (f)(..) -> r), func!(func_info: ..), unsafe{}/extern forms, closure!, fake! with and without times), plus null target / "
-        "null replacement / typed+unchecked mixes per member, plus 20 async output-type pairs. Structural equality is known by "
+        "null replacement / typed+unchecked mixes per member, plus 20 async output-type pairs and 7 hand-written poll functions given to the checked async installer (only `fn() -> Poll<T>` with the right T fits; extra parameter, &mut parameter, unsafe, extern \"C\", other T, closure are refused). Structural equality is known by "
         "construction. Oracle: accepted iff same class; a refusal is a 'Signature mismatch' or null-pointer panic, raised before any "
         "library mprotect / flush / executable mmap, with the target bytes unchanged. Lifetime-only pairs are run and reported, not judged. "
         "Additionally every arm of fake! (parsed from the source, one generated program per arm) is installed on a target declared with "
